@@ -518,16 +518,12 @@ impl PreferenceManager {
         let new_language = get_str(new_prefs, "Language")?;
         // "Auto" is not a language: the files are those of "LanguageAuto" (which is not stored in the preference files)
         let new_language_to_use = self.language_to_use(new_language);
-        if old_language != new_language {
+        let old_speech_style = get_str(&self.user_prefs, "SpeechStyle")?.to_string();
+        let new_speech_style = get_str(new_prefs, "SpeechStyle")?;
+        if old_language != new_language || old_speech_style != new_speech_style {
+            // both might have changed: the style file is the one of the new style in the new language
             let language_dir = self.rules_dir.to_path_buf().join("Languages");
-            self.set_speech_files(&language_dir, &new_language_to_use, None)?;  // also sets style file
-        } else {
-            let old_speech_style = get_str(&self.user_prefs, "SpeechStyle")?.to_string();
-            let new_speech_style = get_str(new_prefs, "SpeechStyle")?;
-            let language_dir = self.rules_dir.to_path_buf().join("Languages");
-            if old_speech_style != new_speech_style {
-                self.set_speech_files(&language_dir, &new_language_to_use, Some(new_speech_style))?;
-            }
+            self.set_speech_files(&language_dir, &new_language_to_use, Some(new_speech_style))?;
         }
 
         let old_braille_code = get_str(&self.user_prefs, "BrailleCode")?.to_string();
